@@ -44,9 +44,12 @@ import (
 	"golang.org/x/crypto/sha3"
 
 	"github.com/teleport-network/teleport/app"
+	"github.com/teleport-network/teleport/x/xibc"
 	bsctypes "github.com/teleport-network/teleport/x/xibc/clients/light-clients/bsc/types"
 	clienttypes "github.com/teleport-network/teleport/x/xibc/core/client/types"
+	"github.com/teleport-network/teleport/x/xibc/core/host"
 	"github.com/teleport-network/teleport/x/xibc/exported"
+	xibctypes "github.com/teleport-network/teleport/x/xibc/types"
 )
 
 
@@ -166,6 +169,7 @@ type c09Book struct {
 	rawAfter    map[uint64]int  // number of distinct validators in force after height h was accepted
 	consPresent map[uint64]bool // consensus state of height h still stored just before the current op
 	accepted    map[uint64]*bsctypes.Header // the header accepted for each height on the head's ancestry (harness record)
+	upgraded    bool                        // the last state-changing op of this client was an upgrade
 }
 
 func newC09Book() *c09Book {
@@ -473,8 +477,66 @@ func (w *c09World) apply(r *Rec, op string) string {
 		w.lastEpoch, _ = bsctypes.ParseValidators(h.Extra)
 		w.presVals, w.prevVals, w.switchAt, w.tp, w.maxN = vals, nil, 0, tp, len(c09Distinct(vals))
 		w.rawAfter = map[uint64]int{u: len(c09Distinct(vals))}
+		w.upgraded = true
 		w.ancestry(r)
 		return w.dump(w.ctx, h)
+	case "restart": // the hosting chain is exported and re-imported: xibc ExportGenesis -> JSON (app codec) -> Validate ->
+		// emptied xibc store -> InitGenesis. Nothing a light client stores may change.
+		before := w.rawClients(w.ctx)
+		cctx, write := w.ctx.CacheContext()
+		var verr error
+		pan, msg := safely(func() {
+			gs := xibc.ExportGenesis(cctx, *w.app.XIBCKeeper)
+			cdc := w.app.AppCodec()
+			var gs2 xibctypes.GenesisState
+			cdc.MustUnmarshalJSON(cdc.MustMarshalJSON(gs), &gs2)
+			if verr = gs2.Validate(); verr != nil {
+				return
+			}
+			st := cctx.KVStore(w.app.GetKey(host.StoreKey))
+			var ks [][]byte
+			it := sdk.KVStorePrefixIterator(st, nil)
+			for ; it.Valid(); it.Next() {
+				ks = append(ks, append([]byte{}, it.Key()...))
+			}
+			it.Close()
+			for _, kk := range ks {
+				st.Delete(kk)
+			}
+			xibc.InitGenesis(cctx, *w.app.XIBCKeeper, false, &gs2)
+		})
+		if pan || verr != nil {
+			r.Count("restart.failed")
+			w.find(r, "C09:restart-export-not-importable", "the exported xibc genesis of a state with a BSC client fails validation / InitGenesis", fmt.Sprintf("panic=%v %s err=%v", pan, msg, verr), "export -> validate -> import succeeds")
+			return "err"
+		}
+		write()
+		r.Count("restart")
+		for i := 0; i < 2; i++ {
+			b := w.books[i]
+			if !b.created || b.head == nil {
+				continue
+			}
+			if len(b.sealedBy) > 1 {
+				r.Count("restart.with-recent-signers")
+			}
+			num := b.head.Height.RevisionHeight
+			if !c09SameList(b.lastEpoch, b.presVals) && num%b.epoch < uint64(len(b.presVals)/2) {
+				r.Count("restart.between-epoch-and-switch")
+			}
+			if b.switchAt != 0 && num == b.switchAt {
+				r.Count("restart.right-after-switch")
+			}
+			if b.startH == num && len(b.accepted) >= 1 && b.upgraded {
+				r.Count("restart.right-after-upgrade")
+			}
+		}
+		if after := w.rawClients(w.ctx); after != before {
+			fam := c09FirstDiff(before, after)
+			w.find(r, "C09:restart-changed-client-store:"+fam, "export + InitGenesis changed what a BSC client stores (first difference: "+fam+")", "store after != store before", "identical client state, consensus states, recent signers and pending validators")
+			return "ok changed"
+		}
+		return "ok same"
 	case "reset":
 		w.reset()
 		w.hist = []string{op}
@@ -579,6 +641,7 @@ func (w *c09World) apply(r *Rec, op string) string {
 			}
 		}
 		w.accepted[h.Height.RevisionHeight] = h
+		w.upgraded = false
 		w.ancestry(r)
 		return w.dump(w.ctx, h)
 	}
@@ -719,6 +782,55 @@ func (w *c09World) oracle(r *Rec, before *bsctypes.ClientState, h *bsctypes.Head
 	w.sealedBy[num] = signer
 	w.rawAfter[num] = len(c09Distinct(after.Validators))
 	w.head = h
+}
+
+// rawClients: raw key/value listing of both client stores (client state, consensus states, recentSingers/*,
+// pendingValidators — everything under clients/<chain>/), sorted by key.
+func (w *c09World) rawClients(ctx sdk.Context) string {
+	var sb strings.Builder
+	for _, ch := range c09Chains {
+		st := w.app.XIBCKeeper.ClientKeeper.ClientStore(ctx, ch)
+		it := sdk.KVStorePrefixIterator(st, nil)
+		for ; it.Valid(); it.Next() {
+			sb.WriteString(ch + "|" + hx(it.Key()) + "=" + hx(it.Value()) + "\n")
+		}
+		it.Close()
+	}
+	return sb.String()
+}
+
+// c09FirstDiff names the family of the first key that differs between two rawClients listings.
+func c09FirstDiff(a, b string) string {
+	la, lb := strings.Split(a, "\n"), strings.Split(b, "\n")
+	fam := func(l string) string {
+		i, j := strings.IndexByte(l, '|'), strings.IndexByte(l, '=')
+		if i < 0 || j < i {
+			return "end"
+		}
+		k := string(unhx(l[i+1 : j]))
+		for _, f := range []string{"pendingValidators", "recentSingers", "consensusStates", "clientState"} {
+			if strings.HasPrefix(k, f) {
+				return f
+			}
+		}
+		return "other"
+	}
+	for i := 0; i < len(la) || i < len(lb); i++ {
+		var x, y string
+		if i < len(la) {
+			x = la[i]
+		}
+		if i < len(lb) {
+			y = lb[i]
+		}
+		if x != y {
+			if x != "" && (y == "" || x < y) {
+				return fam(x)
+			}
+			return fam(y)
+		}
+	}
+	return "none"
 }
 
 // ancestry: every height on the head's ancestry (the harness' own record of the header accepted for it) that still has
